@@ -69,6 +69,35 @@ def random_bytes_form(rng):
     return rng.choice(["base32 {}", "b32 {}", "base32({})", "b32({})"]).format(d)
 
 
+# classes whose SInt immediate the AVM assembler (and the model: Parse.signed_imm_class) reads as a SIGNED integer (int8)
+SIGNED_CLASSES = ("FrameDig", "FrameBury")
+
+
+def signed_imm(rng):
+    """an int8 immediate of frame_dig / frame_bury; negative offsets (the arguments below the frame pointer) are the
+    common case in compiled code.  Non-negative ones keep the three integer spellings; a negative one is decimal
+    (Python's int(): `-010` is -10, `-0` is 0)."""
+    c = rng.random()
+    if c < 0.7:
+        return "-" + str(rng.choice([1, 2, 3, 4, 8, 100, 127, 128, rng.randrange(1, 129)]))
+    if c < 0.8:
+        return rng.choice(["-0", "-01", "-010", "-007"])
+    return rng.choice(int_spellings(rng, rng.choice([0, 1, 2, 3, 7, 8, 15, 16, 100, 127])))
+
+
+def signed_frame_lines(rng, n):
+    """lines over the rules of the signed classes: directed offsets x decorations, then random ones"""
+    out = []
+    for mn in ("frame_dig", "frame_bury"):
+        for kk in sorted({1, 2, 3, 127, 128, rng.randrange(1, 129)}):
+            for deco in ("{} -{}", "  {} -{}", "{} -{} // c", "\t{}\t-{}"):
+                out.append((deco.format(mn, kk), 8, "rule:SInt:signed"))
+    for _ in range(n):
+        mn = rng.choice(("frame_dig", "frame_bury"))
+        out.append((decorate(rng, f"{mn} {signed_imm(rng)}"), rng.randrange(1, 9), "rule:SInt:signed"))
+    return out
+
+
 def imm_for(rng, shape, tb):
     txf = [k for k, _ in tb["tx_fields"]]
     arr = [k for k, _ in tb["tx_array_fields"]]
@@ -166,6 +195,8 @@ def all_lines(rng, n):
         extra.append((decorate(rng2, f"{op} {random_bytes_form(rng2)}"), rng2.randrange(1, 9), "bytes-random"))
         if rng2.random() < 0.4:
             extra.append((decorate(rng2, rng2.choice(["bytecblock ", "pushbytess "]) + " ".join(random_bytes_form(rng2) for _ in range(rng2.randrange(1, 4)))), rng2.randrange(1, 9), "bytes-list-random"))
+    # signed immediates of the frame opcodes (shape SInt + class in SIGNED_CLASSES); drawn last from the second stream
+    extra += signed_frame_lines(rng2, max(24, n // 50))
     return out + extra
 
 
@@ -193,6 +224,13 @@ def stack_soup(rng, n):
             imm = imm_for(rng, shape, tb)
             base = key.rstrip(" ")
             out.append(base if imm == "" else base + " " + imm)
+    # frame_dig / frame_bury: about half of the occurrences get a negative offset (second stream: the rest of the soup
+    # is what it was before signed immediates were generated)
+    rng2 = random.Random("signed" + str(rng.getstate()[1][:8]))
+    for k, l in enumerate(out):
+        w = l.split()
+        if len(w) == 2 and w[0] in ("frame_dig", "frame_bury") and rng2.random() < 0.5:
+            out[k] = f"{w[0]} {signed_imm(rng2)}"
     if rng.random() < 0.3:
         # the block ends in a multi-way branch whose label list may name one label several times (match pops one value per
         # LISTED label plus the value compared; switch pops one)
